@@ -176,6 +176,10 @@ func (ex *Exec) interfere(st *State, key string) {
 	}
 	fr := st.top()
 	cf := ex.eng.contractFor(fr.fn)
+	if cf == nil && fr.fn != ex.fn && fr.fn.Parent() != nil {
+		// an inlined function literal of the function under verification: its interference clauses apply
+		cf = ex.fc
+	}
 	if cf == nil {
 		return
 	}
